@@ -27,9 +27,10 @@ def _find(body, cls, name=None):
         if isinstance(node, ast.ClassDef) and node.name == cls:
             if name is None:
                 return node
-            for f in node.body:
-                if isinstance(f, (ast.FunctionDef, ast.AsyncFunctionDef)) and f.name == name:
-                    return f
+            found = [f for f in node.body if isinstance(f, (ast.FunctionDef, ast.AsyncFunctionDef)) and f.name == name
+                     and not any((isinstance(d, ast.Name) and d.id == "overload") for d in f.decorator_list)]
+            if found:
+                return found[-1]
             _fail(f"{cls}.{name} not found")
     _fail(f"class {cls} not found")
 
@@ -144,9 +145,406 @@ def extract(src: str) -> dict:
     return out
 
 
+# -------------------------------------------------------------------------------------------------------------
+# statement sequences of add / pop / _on_timeout / clear / shutdown  ->  lists of primitive operations
+# -------------------------------------------------------------------------------------------------------------
+# Only statements with an effect on the modelled state produce a primitive; logging, isinstance asserts, casts and
+# pure local computations are skipped, `with` blocks are transparent.  Locals are tracked by what they were assigned
+# from (so renaming them does not matter), call arguments may be positional or keyword.  Anything else with a
+# possible effect raises TranslatorError.
+
+def _is_self_attr(node, name=None):
+    return isinstance(node, ast.Attribute) and isinstance(node.value, ast.Name) and node.value.id == "self" \
+        and (name is None or node.attr == name)
+
+
+def _call_name(node):
+    """'self.x.y' style dotted name of a call target, or None"""
+    parts = []
+    while isinstance(node, ast.Attribute):
+        parts.append(node.attr)
+        node = node.value
+    if isinstance(node, ast.Name):
+        parts.append(node.id)
+        return ".".join(reversed(parts))
+    return None
+
+
+def _is_logging(st):
+    return isinstance(st, ast.Expr) and isinstance(st.value, ast.Call) and \
+        (_call_name(st.value.func) or "").startswith("self._logger.")
+
+
+TABLE_ATTR = ["_identifiers"]       # inferred from `has`: the attribute the identifier is looked up in
+TIMEOUT_METHOD = ["_on_timeout"]     # inferred from `add`: the method handed to register_task
+PURE_HELPERS: set[str] = set()      # "self.<method>" names of RequestCache methods that only compute a value
+
+
+def _pure_helpers(cls_node) -> set[str]:
+    """methods whose body is made of docstring / local assignments / if / return over pure expressions (an extracted
+    helper such as `_effective_delay(cache)`); computed to a fixpoint so helpers may call helpers"""
+    found: set[str] = set()
+
+    def pure_body(body):
+        for st in body:
+            if isinstance(st, ast.Expr) and isinstance(st.value, ast.Constant):
+                continue
+            if isinstance(st, ast.Return):
+                if st.value is not None and not _is_pure_expr(st.value, found):
+                    return False
+            elif isinstance(st, ast.Assign):
+                if not all(isinstance(t, ast.Name) for t in st.targets) or not _is_pure_expr(st.value, found):
+                    return False
+            elif isinstance(st, ast.If):
+                if not _is_pure_expr(st.test, found) or not pure_body(st.body) or not pure_body(st.orelse):
+                    return False
+            else:
+                return False
+        return True
+    changed = True
+    while changed:
+        changed = False
+        for f in cls_node.body:
+            if isinstance(f, ast.FunctionDef) and "self." + f.name not in found and not f.decorator_list \
+                    and pure_body(f.body):
+                found.add("self." + f.name)
+                changed = True
+    return found
+
+
+def _is_pure_expr(node, helpers=None):
+    """expression without calls except isinstance/issubclass/any/len/str/cast/float/int, pure helper methods of the
+    class, and attribute reads"""
+    helpers = PURE_HELPERS if helpers is None else helpers
+    for sub in ast.walk(node):
+        if isinstance(sub, ast.Call):
+            if _call_name(sub.func) not in ("isinstance", "issubclass", "any", "all", "len", "str", "cast", "float",
+                                             "int", "type", "min", "max") and _call_name(sub.func) not in helpers:
+                return False
+        if isinstance(sub, (ast.Await, ast.Yield, ast.YieldFrom, ast.NamedExpr)):
+            return False
+    return True
+
+
+class _Seq:
+    def __init__(self, method, fn):
+        self.method = method
+        self.fn = fn
+        self.ops = []
+        self.ident_vars = set()      # locals holding self._create_identifier(...)
+        self.cache_vars = set()      # locals (or the parameter) holding the cache object
+        self.task_vars = set()       # locals holding the list returned by cancel_all_pending_tasks()
+        self.waiter_vars = set()
+        self.pure_locals = set()
+        self.params = [a.arg for a in fn.args.args]
+
+    def fail(self, what, node=None):
+        _fail(f"{self.method}: {what}" + (f" (line {node.lineno}: {ast.unparse(node)[:90]})" if node is not None else ""))
+
+    # --- recognisers ---------------------------------------------------------------------------------
+    def is_ident(self, node):
+        return isinstance(node, ast.Name) and node.id in self.ident_vars
+
+    def is_cache(self, node):
+        return isinstance(node, ast.Name) and node.id in self.cache_vars
+
+    def is_identifiers(self, node):
+        return _is_self_attr(node, TABLE_ATTR[0])
+
+    def is_create_identifier(self, node):
+        return isinstance(node, ast.Call) and _call_name(node.func) == "self._create_identifier"
+
+    def cancel_futures_loop(self, st, of_cache_var):
+        """for f, _ in <cache>.managed_futures: f.cancel()"""
+        if not (isinstance(st, ast.For) and not st.orelse and len(st.body) == 1):
+            return False
+        it = st.iter
+        if not (isinstance(it, ast.Attribute) and it.attr == "managed_futures" and isinstance(it.value, ast.Name)
+                and it.value.id == of_cache_var):
+            return False
+        tgt = st.target
+        if not (isinstance(tgt, ast.Tuple) and len(tgt.elts) == 2 and isinstance(tgt.elts[0], ast.Name)):
+            return False
+        b = st.body[0]
+        return (isinstance(b, ast.Expr) and isinstance(b.value, ast.Call) and not b.value.args
+                and _call_name(b.value.func) == tgt.elts[0].id + ".cancel")
+
+    # --- walking -------------------------------------------------------------------------------------
+    def walk(self, body):
+        for st in body:
+            self.stmt(st)
+
+    def stmt(self, st):
+        if isinstance(st, ast.Expr) and isinstance(st.value, ast.Constant):
+            return                                              # docstring / bare constant
+        if isinstance(st, ast.Pass) or _is_logging(st):
+            return
+        if isinstance(st, ast.Assert):
+            t = st.test
+            if isinstance(t, ast.Call) and _call_name(t.func) == "isinstance":
+                return
+            if isinstance(t, ast.Compare) and len(t.ops) == 1 and isinstance(t.ops[0], ast.Gt) \
+                    and isinstance(t.left, ast.Attribute) and t.left.attr == "timeout_delay":
+                self.ops.append("assertDelay")
+                return
+            self.fail("unsupported assert", st)
+        if isinstance(st, (ast.With, ast.AsyncWith)):
+            for it in st.items:
+                nm = _call_name(it.context_expr.func) if isinstance(it.context_expr, ast.Call) else _call_name(it.context_expr)
+                if nm not in ("self.lock", "self._task_lock", "suppress"):
+                    self.fail("unsupported context manager", st)
+            self.walk(st.body)
+            return
+        handler = getattr(self, "stmt_" + self.method.lstrip("_"))
+        if handler(st):
+            return
+        # pure local computation?
+        if isinstance(st, ast.Assign) and len(st.targets) == 1 and isinstance(st.targets[0], ast.Name):
+            if self.is_create_identifier(st.value):
+                self.ident_vars.add(st.targets[0].id)
+                return
+            if _is_pure_expr(st.value):
+                self.pure_locals.add(st.targets[0].id)
+                return
+        if isinstance(st, ast.If) and _is_pure_expr(st.test) and not st.orelse and all(
+                isinstance(b, ast.Assign) and len(b.targets) == 1 and isinstance(b.targets[0], ast.Name)
+                and b.targets[0].id in self.pure_locals and _is_pure_expr(b.value) for b in st.body):
+            return                                              # e.g. the passthrough override of the local delay
+        self.fail("statement outside the translator's subset", st)
+
+    # --- add ---------------------------------------------------------------------------------------
+    def stmt_add(self, st):
+        if isinstance(st, ast.If) and _is_self_attr(st.test, "_shutdown"):
+            body = [b for b in st.body if not _is_logging(b)]
+            if len(body) == 2 and self.cancel_futures_loop(body[0], self.params[1]) \
+                    and isinstance(body[1], ast.Return) and (body[1].value is None or
+                                                               (isinstance(body[1].value, ast.Constant) and body[1].value.value is None)) \
+                    and not st.orelse:
+                self.ops.append("shutdownGate")
+                return True
+            self.fail("shutdown gate is not `cancel the cache's managed futures; return None`", st)
+        if isinstance(st, ast.If) and isinstance(st.test, ast.Compare) and len(st.test.ops) == 1 \
+                and isinstance(st.test.ops[0], ast.In) and self.is_ident(st.test.left) \
+                and self.is_identifiers(st.test.comparators[0]):
+            body = [b for b in st.body if not _is_logging(b)]
+            if len(body) == 1 and isinstance(body[0], ast.Return) and not st.orelse and (
+                    body[0].value is None or (isinstance(body[0].value, ast.Constant) and body[0].value.value is None)):
+                self.ops.append("dupGuard")
+                return True
+            self.fail("duplicate guard does not `return None`", st)
+        if isinstance(st, ast.Expr) and isinstance(st.value, ast.Call) and _call_name(st.value.func) == "self.register_task":
+            c = st.value
+            args = list(c.args)
+            kw = {k.arg: k.value for k in c.keywords}
+            names = ["name", "user_task"]
+            for i, a in enumerate(args[:2]):
+                kw.setdefault(names[i], a)
+            rest = args[2:]
+            cache = self.params[1]
+            ok = (isinstance(kw.get("name"), ast.Name) and kw["name"].id == cache
+                  and _is_self_attr(kw.get("user_task"), TIMEOUT_METHOD[0])
+                  and len(rest) == 1 and isinstance(rest[0], ast.Name) and rest[0].id == cache
+                  and isinstance(kw.get("delay"), ast.Name) and kw["delay"].id in self.pure_locals
+                  and set(kw) <= {"name", "user_task", "delay"})
+            if not ok:
+                self.fail("register_task is not (cache, self._on_timeout, cache, delay=<local delay>)", st)
+            self.delay_local = kw["delay"].id
+            self.ops.append("registerTask")
+            return True
+        if isinstance(st, ast.Assign) and len(st.targets) == 1 and isinstance(st.targets[0], ast.Subscript) \
+                and self.is_identifiers(st.targets[0].value) and self.is_ident(st.targets[0].slice) \
+                and isinstance(st.value, ast.Name) and st.value.id == self.params[1]:
+            self.ops.append("storeIdent")
+            return True
+        if isinstance(st, ast.Assign) and len(st.targets) == 1 and isinstance(st.targets[0], ast.Name) \
+                and isinstance(st.value, ast.Call) and _call_name(st.value.func) == "self._waiters.pop":
+            self.waiter_vars.add(st.targets[0].id)
+            self.ops.append("resolveWaiter")
+            return True
+        if isinstance(st, ast.If) and any(isinstance(n, ast.Name) and n.id in self.waiter_vars for n in ast.walk(st.test)):
+            return True                                         # `if waiter is not None and not waiter.done(): set_result`
+        if isinstance(st, ast.Return) and isinstance(st.value, ast.Name) and st.value.id == self.params[1]:
+            self.ops.append("returnAdded")
+            return True
+        return False
+
+    # --- pop ---------------------------------------------------------------------------------------
+    def stmt_pop(self, st):
+        if isinstance(st, ast.If) and isinstance(st.test, ast.Call) and _call_name(st.test.func) == "isinstance" \
+                and not st.orelse:
+            self.walk(st.body)                                  # the str branch is the implementation
+            return True
+        if isinstance(st, ast.Return) and isinstance(st.value, ast.Call) and _call_name(st.value.func) == "self.pop":
+            a = st.value.args
+            if len(a) == 2 and isinstance(a[0], ast.Attribute) and a[0].attr == "name":
+                return True                                     # class form delegates to the str form
+            self.fail("class-form delegation is not self.pop(prefix.name, number)", st)
+        if isinstance(st, ast.Assign) and len(st.targets) == 1 and isinstance(st.targets[0], ast.Name) \
+                and isinstance(st.value, ast.Call) and _call_name(st.value.func) == ("self." + TABLE_ATTR[0] + ".pop"):
+            if len(st.value.args) == 1 and not st.value.keywords and self.is_ident(st.value.args[0]):
+                self.cache_vars.add(st.targets[0].id)
+                self.ops.append("popIdent")
+                return True
+            self.fail("identifier is not popped with KeyError semantics", st)
+        if isinstance(st, ast.Expr) and isinstance(st.value, ast.Call) \
+                and _call_name(st.value.func) == "self.cancel_pending_task":
+            if len(st.value.args) == 1 and self.is_cache(st.value.args[0]):
+                self.ops.append("cancelTask")
+                return True
+            self.fail("cancel_pending_task is not applied to the popped cache", st)
+        if isinstance(st, ast.Return) and self.is_cache(st.value):
+            self.ops.append("returnClaimed")
+            return True
+        return False
+
+    # --- _on_timeout ------------------------------------------------------------------------------
+    def stmt_on_timeout(self, st):
+        cache = self.params[1]
+        self.cache_vars.add(cache)
+        remove = None
+        if isinstance(st, ast.If) and isinstance(st.test, ast.Compare) and len(st.test.ops) == 1 \
+                and isinstance(st.test.ops[0], ast.In) and self.is_ident(st.test.left) \
+                and self.is_identifiers(st.test.comparators[0]) and not st.orelse and len(st.body) == 1:
+            remove = st.body[0]
+            if isinstance(remove, ast.Delete) and len(remove.targets) == 1 and isinstance(remove.targets[0], ast.Subscript) \
+                    and self.is_identifiers(remove.targets[0].value) and self.is_ident(remove.targets[0].slice):
+                self.ops.append("removeIdent")
+                return True
+            if isinstance(remove, ast.Expr) and isinstance(remove.value, ast.Call) \
+                    and _call_name(remove.value.func) == ("self." + TABLE_ATTR[0] + ".pop") and self.is_ident(remove.value.args[0]):
+                self.ops.append("removeIdent")
+                return True
+            self.fail("guarded statement does not remove the identifier", st)
+        if isinstance(st, ast.Expr) and isinstance(st.value, ast.Call) and _call_name(st.value.func) == ("self." + TABLE_ATTR[0] + ".pop"):
+            a = st.value.args
+            if len(a) == 2 and self.is_ident(a[0]) and isinstance(a[1], ast.Constant) and a[1].value is None:
+                self.ops.append("removeIdent")
+                return True
+            self.fail("unguarded identifier pop", st)
+        if isinstance(st, ast.Expr) and isinstance(st.value, ast.Call) and _call_name(st.value.func) == cache + ".on_timeout" \
+                and not st.value.args:
+            self.ops.append("callOnTimeout")
+            return True
+        if isinstance(st, ast.For):
+            if self.complete_futures_loop(st, cache):
+                self.ops.append("completeFutures")
+                return True
+            self.fail("loop is not `complete every managed future that is not done`", st)
+        if isinstance(st, ast.Expr) and isinstance(st.value, ast.Call) \
+                and _call_name(st.value.func) == "self.cancel_pending_task":
+            if len(st.value.args) == 1 and self.is_cache(st.value.args[0]):
+                self.ops.append("cancelTask")
+                return True
+        return False
+
+    def complete_futures_loop(self, st, cache):
+        it, tgt = st.iter, st.target
+        if not (isinstance(it, ast.Attribute) and it.attr == "managed_futures" and isinstance(it.value, ast.Name)
+                and it.value.id == cache and isinstance(tgt, ast.Tuple) and len(tgt.elts) == 2
+                and all(isinstance(e, ast.Name) for e in tgt.elts) and not st.orelse and len(st.body) == 1):
+            return False
+        fut, val = tgt.elts[0].id, tgt.elts[1].id
+        g = st.body[0]
+        if not (isinstance(g, ast.If) and not g.orelse and isinstance(g.test, ast.UnaryOp) and isinstance(g.test.op, ast.Not)
+                and isinstance(g.test.operand, ast.Call) and _call_name(g.test.operand.func) == fut + ".done"
+                and len(g.body) == 1):
+            return False
+        c = g.body[0]
+        if not (isinstance(c, ast.If) and isinstance(c.test, ast.Call) and _call_name(c.test.func) == "isinstance"
+                and len(c.test.args) == 2 and isinstance(c.test.args[0], ast.Name) and c.test.args[0].id == val
+                and isinstance(c.test.args[1], ast.Name) and c.test.args[1].id == "Exception"
+                and len(c.body) == 1 and len(c.orelse) == 1):
+            return False
+
+        def is_set(x, meth):
+            return (isinstance(x, ast.Expr) and isinstance(x.value, ast.Call) and _call_name(x.value.func) == f"{fut}.{meth}"
+                    and len(x.value.args) == 1 and isinstance(x.value.args[0], ast.Name) and x.value.args[0].id == val)
+        return is_set(c.body[0], "set_exception") and is_set(c.orelse[0], "set_result")
+
+    # --- clear ------------------------------------------------------------------------------------
+    def stmt_clear(self, st):
+        return self.common_teardown(st)
+
+    def common_teardown(self, st):
+        if isinstance(st, ast.Assign) and len(st.targets) == 1 and isinstance(st.targets[0], ast.Name) \
+                and isinstance(st.value, ast.Call) and _call_name(st.value.func) == "self.cancel_all_pending_tasks" \
+                and not st.value.args:
+            self.task_vars.add(st.targets[0].id)
+            self.ops.append("cancelAllTasks")
+            return True
+        if isinstance(st, ast.Expr) and isinstance(st.value, ast.Call) and _call_name(st.value.func) == ("self." + TABLE_ATTR[0] + ".clear"):
+            self.ops.append("clearIdents")
+            return True
+        if isinstance(st, ast.Return) and isinstance(st.value, ast.Name) and st.value.id in self.task_vars:
+            self.ops.append("returnTasks")
+            return True
+        return False
+
+    # --- shutdown ---------------------------------------------------------------------------------
+    def stmt_shutdown(self, st):
+        if self.common_teardown(st):
+            return True
+        if isinstance(st, ast.Assign) and len(st.targets) == 1 and _is_self_attr(st.targets[0], "_shutdown") \
+                and isinstance(st.value, ast.Constant) and st.value.value is True:
+            self.ops.append("setShutdown")
+            return True
+        if isinstance(st, ast.For) and isinstance(st.iter, ast.Call) and _call_name(st.iter.func) == ("self." + TABLE_ATTR[0] + ".values") \
+                and isinstance(st.target, ast.Name) and not st.orelse:
+            body = [b for b in st.body if not _is_logging(b)]
+            if len(body) == 1 and self.cancel_futures_loop(body[0], st.target.id):
+                self.ops.append("cancelRegisteredFutures")
+                return True
+            self.fail("loop over the registered caches does not cancel their managed futures", st)
+        if isinstance(st, ast.If) and isinstance(st.test, ast.Name) and st.test.id in self.task_vars and not st.orelse:
+            inner = st.body
+            while len(inner) == 1 and isinstance(inner[0], (ast.With, ast.AsyncWith)):
+                inner = inner[0].body
+            if len(inner) == 1 and isinstance(inner[0], ast.Expr) and isinstance(inner[0].value, ast.Await):
+                self.ops.append("awaitTasks")
+                return True
+        return False
+
+
+PRIMS = ["assertDelay", "shutdownGate", "dupGuard", "registerTask", "storeIdent", "resolveWaiter", "returnAdded",
+         "popIdent", "cancelTask", "returnClaimed", "removeIdent", "callOnTimeout", "completeFutures",
+         "cancelAllTasks", "clearIdents", "returnTasks", "setShutdown", "cancelRegisteredFutures", "awaitTasks"]
+
+
+def extract_ops(src: str) -> dict:
+    tree = ast.parse(src)
+    out = {}
+    # names that a refactor may change: the identifier table attribute and the timeout method
+    has = _find(tree.body, "RequestCache", "has")
+    tabs = [c.comparators[0].attr for c in ast.walk(has) if isinstance(c, ast.Compare) and len(c.ops) == 1
+            and isinstance(c.ops[0], ast.In) and _is_self_attr(c.comparators[0])]
+    if len(set(tabs)) != 1:
+        _fail("has(): cannot tell which attribute holds the identifier table")
+    TABLE_ATTR[0] = tabs[0]
+    regs = [c for c in ast.walk(_find(tree.body, "RequestCache", "add")) if isinstance(c, ast.Call)
+            and _call_name(c.func) == "self.register_task"]
+    if len(regs) != 1 or len(regs[0].args) < 2 or not _is_self_attr(regs[0].args[1]):
+        _fail("add(): expected exactly one self.register_task(cache, self.<timeout method>, cache, delay=…)")
+    TIMEOUT_METHOD[0] = regs[0].args[1].attr
+    PURE_HELPERS.clear()
+    PURE_HELPERS.update(_pure_helpers(_find(tree.body, "RequestCache")) - {"self._create_identifier"})
+    for m in ("add", "pop", "_on_timeout", "clear", "shutdown"):
+        fn = _find(tree.body, "RequestCache", TIMEOUT_METHOD[0] if m == "_on_timeout" else m)
+        sq = _Seq(m, fn)
+        sq.walk(fn.body)
+        out[m] = sq.ops
+    if out["_on_timeout"].count("callOnTimeout") != 1:
+        _fail("_on_timeout does not call cache.on_timeout() exactly once")
+    return out
+
+
 def translate():
     src = (vlib.REPO / "ipv8" / "requestcache.py").read_text()
     c = extract(src)
+    ops = extract_ops(src)
+    c["ops"] = ops
+
+    def lst(name):
+        return "[" + ", ".join("." + o for o in ops[name]) + "]"
     sep = c["identSeparator"].replace("\\", "\\\\").replace('"', '\\"')
     lean = f"""/-
   GENERATED by tools/gen_rc.py from ipv8/requestcache.py — do not edit.
@@ -166,6 +564,23 @@ def passthroughDefaultMs : Nat := {c['passthroughDefaultMs']}
 def minDelayExclusiveMs : Nat := {c['minDelayExclusiveMs']}
 /-- separator of `_create_identifier`: f"{{prefix}}{sep}{{number}}" -/
 def identSeparator : String := "{sep}"
+
+/-- primitive state operations the bodies of RequestCache.add / pop / _on_timeout / clear / shutdown are made of
+    (their meaning is fixed in Ipv8/C10/Source.lean; logging, isinstance asserts and pure locals are not listed) -/
+inductive Prim
+  | {" | ".join(PRIMS)}
+  deriving DecidableEq, Repr
+
+/-- RequestCache.add, in source order -/
+def addOps : List Prim := {lst("add")}
+/-- RequestCache.pop (str branch), in source order -/
+def popOps : List Prim := {lst("pop")}
+/-- RequestCache._on_timeout, in source order -/
+def onTimeoutOps : List Prim := {lst("_on_timeout")}
+/-- RequestCache.clear, in source order -/
+def clearOps : List Prim := {lst("clear")}
+/-- RequestCache.shutdown, in source order -/
+def shutdownOps : List Prim := {lst("shutdown")}
 
 end Ipv8.C10.Gen
 """
